@@ -242,6 +242,51 @@ def r8(ctx):
         ctx.emit('C08-R8', True, MOLITER, tail[0] if tail else f, f'final flush walks the buffers forward ({len(ys)} yield site(s))', key='flush-order')
 
 
+@rule('C08', 'C08-R9', 'every job that was planned is executed: between the construction of the job list and the task generator the list is only materialised '
+                       '(list(jobs) / tuple(jobs) / an unfiltered copy) - never re-bound to a filtered or sliced subset of itself; a filter made for another consumer '
+                       '(the job bed file) has to live in a variable of its own')
+def r9(ctx):
+    f = ctx.fn(BTM, 'tag_multiome_multi_processing')
+    gens = [c for c in walk_no_nested(f) if isinstance(c, ast.Call) and last_name(dotted(c.func)) == 'generate_tasks']
+    ctx.need('C08-R9', len(gens), 1, 'task generator call')
+    jarg = next((k.value for k in gens[0].keywords if k.arg == 'job_gen'), gens[0].args[1] if len(gens[0].args) > 1 else None)
+    if not isinstance(jarg, ast.Name):
+        ctx.emit('C08-R9', False, BTM, gens[0], f'the job list handed to generate_tasks is `{src(jarg) if jarg is not None else None}`, not a local', key='planned-jobs-executed', undecided=True)
+        return
+    v = jarg.id
+    n, bad, und = 0, [], []
+    for st in walk_no_nested(f):
+        if not (isinstance(st, ast.Assign) and any(isinstance(t, ast.Name) and t.id == v for t in st.targets)):
+            continue
+        if v not in names_in(st.value):
+            continue          # a construction, not a re-binding of the planned list
+        n += 1
+        e = st.value
+        if isinstance(e, ast.Call) and last_name(dotted(e.func)) in ('list', 'tuple') and len(e.args) == 1 and src(e.args[0]) == v:
+            continue
+        if isinstance(e, ast.BinOp) and isinstance(e.op, ast.Add):
+            continue          # extended, nothing removed
+        if isinstance(e, (ast.ListComp, ast.GeneratorExp)) and len(e.generators) == 1 and src(e.generators[0].iter) == v:
+            if not e.generators[0].ifs and src(e.elt) == src(e.generators[0].target):
+                continue
+            if e.generators[0].ifs:
+                bad.append((st, f'`{src(st)[:160]}` keeps only the jobs passing `{src(e.generators[0].ifs[0])}`: the jobs filtered out are never handed to a worker'))
+                continue
+        if isinstance(e, ast.Call) and last_name(dotted(e.func)) == 'filter':
+            bad.append((st, f'`{src(st)[:160]}` filters the planned jobs'))
+            continue
+        if isinstance(e, ast.Subscript) and src(e.value) == v and isinstance(e.slice, ast.Slice):
+            bad.append((st, f'`{src(st)[:160]}` keeps a slice of the planned jobs'))
+            continue
+        und.append(st)
+    for st, text in bad:
+        ctx.emit('C08-R9', False, BTM, st, text, key='planned-jobs-executed', what='tag_multiome_multi_processing: planned jobs are dropped before the task generator')
+    for st in und:
+        ctx.emit('C08-R9', False, BTM, st, f'`{src(st)[:160]}` re-binds the job list in a way that is not recognised as a plain copy', key='planned-jobs-executed', undecided=True)
+    if not bad and not und:
+        ctx.emit('C08-R9', True, BTM, gens[0], f'{n} re-bindings of `{v}` between planning and generate_tasks: all are plain materialisations', key='planned-jobs-executed', nontrivial=n > 0)
+
+
 META = {
     'text': ('Decides: the per-job ownership test equals "other contig or site outside the half-open [start, end)" on every ordering, and the '
              'tested site is the molecule cut site; the early stop compares the site with the FETCH end; reads are fetched from the fetch window; '
